@@ -24,6 +24,9 @@ PolicyNamesKnown == \A p \in DOMAIN Pol :
     /\ \A n \in DOMAIN Pol[p].hostkey_sizes : InDb("key", n)
     /\ \A n \in DOMAIN Pol[p].dh_modulus_sizes : InDb("kex", n)
 ProbeTableKnown == \A n \in DOMAIN Tables.hostkey_types : InDb("key", n)
+\* the names the SSH-1 bit masks are spelled out with are names of the SSH-1 rating table (else an SSH-1 audit reports them as unknown)
+Ssh1NamesKnown == /\ \A n \in Range(Tables.ssh1_names.ciphers) : n \in DOMAIN Tables.db1["enc"]
+                  /\ \A n \in Range(Tables.ssh1_names.auths) : n \in DOMAIN Tables.db1["aut"]
 RsaFamilyProbed == \A n \in Range(Tables.rsa_family) : n \in DOMAIN Tables.hostkey_types /\ ~Tables.hostkey_types[n].cert
 DheatTablesKnown ==
     /\ \A n \in Range(Tables.dheat.gex_algs) \cup Range(Tables.dheat.alg_priority) \cup Range(Tables.dheat.tested_algs) : InDb("kex", n)
